@@ -40,6 +40,8 @@ int main(int argc, char** argv) {
   a = fresh(); { int threw = 0; try { pop_at(a, $I(IDX)); } catch (e in IndexOutOfBoundsError) { threw = 1; }
     if (threw) { bad |= !same(a, "after a pop_at that raised IndexOutOfBoundsError (must be unchanged)"); }
     else if (IDX >= 0 && IDX < N) { memmove(&rseq[IDX], &rseq[IDX + 1], sizeof(int64_t) * (nrseq - IDX - 1)); nrseq--; bad |= !same(a, "after pop_at"); } }
+  /* assign(x, x) */
+  a = fresh(); { assign(a, a); bad |= !same(a, "after assign(a, a)"); }
   /* pop on empty */
   a = new(SEQTYPE, Int); nrseq = 0; { try { pop(a); } catch (e in IndexOutOfBoundsError) { } bad |= !same(a, "after pop on an empty container"); }
   return bad;
